@@ -178,19 +178,23 @@ func c09SaveCase(r *rand.Rand, t string) *Case {
 	}
 	info := &c09SaveInfo{Rounds: tier(t, 60, 120)}
 	c := &Case{Hist: h, Stream: "concurrent-save", Meta: map[string]interface{}{"c09save": info, "savepath": info.savePath, "seed": r.Int63(), "tier": t}}
-	// measured on the implementation: what every File renders
+	// measured on the implementation (when the case is judged, see c09Lazy): what every File renders
 	files, jobs := C09Jobs(h)
-	srcs := map[string]bool{}
-	okJobs := 0
-	for _, f := range files {
-		if o := c09SaveWant(jobs[f]); o.Kind == "write" {
-			okJobs++
-			srcs[o.Out] = true
-		} else {
-			feats["some-job:"+o.Kind] = true
+	c09Lazy(c, func(c *Case) {
+		srcs := map[string]bool{}
+		okJobs := 0
+		more := map[string]bool{}
+		for _, f := range files {
+			if o := c09SaveWant(jobs[f]); o.Kind == "write" {
+				okJobs++
+				srcs[o.Out] = true
+			} else {
+				more["some-job:"+o.Kind] = true
+			}
 		}
-	}
-	c.NonTrivial = okJobs >= 2 && len(srcs) >= 2
+		c.NonTrivial = okJobs >= 2 && len(srcs) >= 2
+		c.Tags = append(c.Tags, sortedKeys(more)...)
+	})
 	sameDir, samePkg := map[string]int{}, map[string]int{}
 	for j := 0; j < k; j++ {
 		sameDir[dirOf[j]]++
@@ -212,7 +216,6 @@ func c09SaveCase(r *rand.Rand, t string) *Case {
 	c.Tags = append([]string{"concurrent-save", "layout=" + layout, "names=" + names, "goroutines=" + c07Bucket(k, 2, 4, 8, 16),
 		fmt.Sprintf("rounds=%d", info.Rounds), "barrier=before-build+before-save", "gomaxprocs=2|>=4",
 		"files-in-one-dir=" + c07Bucket(maxOf(sameDir), 1, 2, 4, 8), "same-package-in-one-dir=" + c07Bucket(maxOf(samePkg), 1, 2, 4, 8)}, sortedKeys(feats)...)
-	info.cleanup() // (nothing was saved yet; the measurement above renders into buffers)
 	return c
 }
 
